@@ -212,6 +212,10 @@ def instances(formulas, opts=None):
             b1, b2 = sd1.body_at(x, a1), sd2.body_at(x, a2)
             out.append(z3.Implies(z3.And(lo1 == lo2, hi1 == hi2,
                                          z3.Implies(z3.And(lo1 <= x, x < hi1), b1 == b2)), e1 == e2))
+            # pointwise lemmas supplied by a contract (each proved as its own obligation at an arbitrary index):
+            # instantiated at the extensionality witness
+            for pw_fn in (opts.get("pointwise") or []):
+                out.append(pw_fn(x))
     return out
 
 
